@@ -61,13 +61,13 @@ def gen_ledger(rng):
     lots = []      # [account, cur, remaining Decimal, cost str, ccur, date, label]
     blocks = []
     kinds = []
-    n = rng.choice([1, 2, 3, 5, 8, 12, 16])
+    n = rng.choice([1, 2, 4, 6, 8, 12, 16, 20])
     cash_amounts = ['10', '25.50', '100', '100.00', '0.01', '1000.25', '12.345', '7']
     for _ in range(n):
         date += datetime.timedelta(days=rng.choice([0, 0, 1, 1, 2, 5, 30]))
         live = [l for l in lots if l[2] > 0]
         kind = rng.choices(['deposit', 'expense', 'refund', 'buy', 'sell', 'fx', 'price', 'zero', 'rebuy'],
-                           [2, 3, 2, 5, 5 if live else 0, 2, 4, 1, 2 if lots else 0])[0]
+                           [2, 3, 2, 5, 5 if live else 0, 2, 6, 1, 2 if lots else 0])[0]
         kinds.append(kind)
         d = date.isoformat()
         if kind == 'deposit':
@@ -348,7 +348,10 @@ def prepare(case):
         ds = sorted({e.date for e in entries if hasattr(e, 'date')})
         cands = [None, datetime.date(2019, 6, 1), datetime.date(2030, 1, 1)]
         if ds:
-            cands += [ds[len(ds) // 2], ds[-1], ds[0]]
+            cands += [ds[len(ds) // 2], ds[-1]]
+        pds = sorted({d for v in price_map.values() for d, _ in v})
+        if pds:
+            cands += [pds[0], pds[len(pds) // 2], pds[-1] - datetime.timedelta(days=1), pds[len(pds) // 2]]
         return cands
 
     plan = case['plan']
@@ -403,8 +406,28 @@ def prepare(case):
                 e2 = f'sum_amt (map (convert_position {pt} {one} {cur(tgt)} {dd}) {S})'
                 sc = A_SC + 2 * C_SC
             r = execute(q)
+            branches = {}
+            for (e, p) in rows:
+                if not sel[3](e, p):
+                    continue
+                if kind == 'value':
+                    if p.cost is None:
+                        b = 'no-cost'
+                    else:
+                        b = 'rate' if bprices.get_price(price_map, (p.units.currency, p.cost.currency), date)[1] is not None \
+                            else 'no-rate'
+                else:
+                    if bprices.get_price(price_map, (p.units.currency, tgt), date)[1] is not None:
+                        b = 'direct'
+                    elif (p.cost is not None and p.cost.currency != tgt
+                          and bprices.get_price(price_map, (p.units.currency, p.cost.currency), date)[1] is not None
+                          and bprices.get_price(price_map, (p.cost.currency, tgt), date)[1] is not None):
+                        b = 'via-cost-currency'
+                    else:
+                        b = 'unconverted'
+                branches[b] = branches.get(b, 0) + 1
             add(kind, q, agg_row(r, 2), f'OL [o_inv ({e1}); o_inv ({e2})]',
-                ['invs', sc], sel=sel[0], nsel=len(sel_names(sel)), date=str(date), target=tgt)
+                ['invs', sc], sel=sel[0], nsel=len(sel_names(sel)), date=str(date), target=tgt, branches=branches)
         elif kind == 'group':
             gname, gexpr, gfun = [('account', 'account', lambda e, p: p.account),
                                   ('currency', 'currency', lambda e, p: p.units.currency),
@@ -743,6 +766,15 @@ def inv_compare(case, im, mx, cur, lab):
 IMPORTS = ['Model.Inventory', 'Model.Balance']
 
 
+def coq_eval(tag, exprs, shard):
+    """core.coq_eval, retried once: under heavy machine load a coqc process is occasionally killed."""
+    try:
+        return core.coq_eval(tag, IMPORTS, exprs, shard=shard)
+    except RuntimeError as e:
+        core.log(f'[C12] coqc failed once ({str(e)[:200]!r}), retrying')
+        return core.coq_eval(tag + 'x', IMPORTS, exprs, shard=shard)
+
+
 def make_cases(rng, n, tier, subdir='ledgers'):
     d = os.path.join(TMP, subdir)
     shutil.rmtree(d, ignore_errors=True)
@@ -762,7 +794,7 @@ def evaluate(cases, tag):
     """Run implementation + model for ledger cases; returns list of (case, prep, problems)."""
     preps = core.pmap(prepare_safe, cases)
     ok = [(c, p) for c, p in zip(cases, preps) if 'error' not in p]
-    outs = core.coq_eval(tag, IMPORTS, [p['coq'] for _, p in ok], shard=20)
+    outs = coq_eval(tag, [p['coq'] for _, p in ok], 20)
     res = []
     it = iter(outs)
     for c, p in zip(cases, preps):
@@ -813,7 +845,7 @@ def shrink_case(case, kind, chk_sql):
 
 
 def run(tier, rng):
-    n = int(os.environ.get('C12_N', 0)) or (160 if tier == 'quick' else 4000)
+    n = int(os.environ.get('C12_N', 0)) or (160 if tier == 'quick' else 2500)
     os.makedirs(TMP, exist_ok=True)
     cases = make_cases(rng, n, tier)
     results = evaluate(cases, 'c12')
@@ -823,14 +855,15 @@ def run(tier, rng):
     icases = [inv_case(rng) for _ in range(ninv)]
     cur, lab = Interner(), Interner()
     iexprs = [inv_model_expr(c, cur, lab) for c in icases]
-    iouts = core.coq_eval('c12i', IMPORTS, iexprs, shard=100)
+    iouts = coq_eval('c12i', iexprs, 100)
     iimpl = [inv_impl(c) for c in icases]
 
     violations = []
     seen = set()
     hist = {'query_kinds': {}, 'selections': {}, 'postings_per_ledger': {}, 'txn_kinds': {}, 'balance_refs': {},
             'where_shapes': {}, 'ledgers_with_load_errors': 0, 'lots_per_ledger': {}, 'reductions_per_ledger': {},
-            'two_connections': 0, 'convert_targets': {}, 'dates': {}, 'key_deleted_events': 0, 'price_points': {}}
+            'two_connections': 0, 'convert_targets': {}, 'date_kinds': {}, 'key_deleted_events': 0, 'price_points': {},
+            'value_branches_positions': {}, 'convert_branches_positions': {}, 'empty_selections': 0}
     nchecks = 0
     lazy_best, lazy_count = {}, {}
     nontrivial = set()
@@ -862,7 +895,13 @@ def run(tier, rng):
                 if chk['kind'] == 'convert':
                     hist['convert_targets'][chk['target']] = hist['convert_targets'].get(chk['target'], 0) + 1
                 if chk['kind'] in ('value', 'convert'):
-                    hist['dates'][chk['date']] = hist['dates'].get(chk['date'], 0) + 1
+                    dk = {'None': 'none', '2019-06-01': 'before-all', '2030-01-01': 'after-all'}.get(chk['date'], 'inside')
+                    hist['date_kinds'][dk] = hist['date_kinds'].get(dk, 0) + 1
+                    hb = hist[chk['kind'] + '_branches_positions']
+                    for b, k in chk['branches'].items():
+                        hb[b] = hb.get(b, 0) + k
+                if chk.get('nsel') == 0:
+                    hist['empty_selections'] += 1
                 if info['postings'] >= 2:
                     nontrivial.add(chk['sql'] + '@' + c['path'])
                 if len(samples) < 8 and chk['kind'] not in {s.split(':')[0] for s in samples}:
